@@ -45,15 +45,36 @@ import sympy as sym
 from sympy.printing.str import StrPrinter
 
 
+def _starts_with_power(text):
+    """Whether ``text`` begins with ``<atom>**``, where an atom is a name or a number
+    (optionally followed by a parenthesised argument) or a parenthesised group."""
+    i = 0
+    while i < len(text) and (text[i].isalnum() or text[i] in "_."):
+        i += 1
+
+    if i < len(text) and text[i] == "(":
+        depth = 0
+        while i < len(text):
+            if text[i] == "(":
+                depth += 1
+            elif text[i] == ")":
+                depth -= 1
+                if depth == 0:
+                    i += 1
+                    break
+            i += 1
+
+    return i > 0 and text[i:i + 2] == "**"
+
+
 class _BlackbirdPrinter(StrPrinter):
     """Prints SymPy expressions so that Blackbird reads them back unchanged: in
-    Blackbird a sign binds tighter than ``**`` (``-a**2`` is ``(-a)**2``), so the
-    negation of a power is written ``-1*a**2``."""
+    Blackbird a sign binds tighter than ``**`` (``-a**2`` is ``(-a)**2``), so a
+    negated product that starts with a power is written ``-1*a**2...``."""
 
     def _print_Mul(self, expr):
         text = super()._print_Mul(expr)
-        coeff, rest = expr.as_coeff_Mul()
-        if coeff == -1 and text.startswith("-") and rest.as_ordered_factors()[0].is_Pow:
+        if text.startswith("-") and _starts_with_power(text[1:]):
             return "-1*" + text[1:]
         return text
 
